@@ -227,6 +227,38 @@ static void run_history(int family /*0 fast,1 HC*/, int nops, const char* mode, 
 /* Record-structured data in a compressor-side ring whose stream is (re)started at a position s0 > 0: the first wrapping block starts
  * below the oldest history byte and overwrites its head.  Records are fixed-size (key + payload), so a lap later the same keys sit at the
  * same ring addresses with different payloads: the layout in which a history that was not trimmed shows up as wrong bytes. */
+/* One stream fed more than 2^31 bytes (LZ4_renormDictT): phase 1 pushes ~2 GB of cheap, very compressible blocks through the stream (not decoded);
+ * phase 2 crosses 2^31 with 256 KB blocks in a double buffer (so the history the stream knows is > 64 KB when the indexes are renormalised).
+ * Block layout: [64 KB table: fixed keys + FIXED values][128 KB filler][64 KB table: same keys at the same places + FRESH values], so that a history
+ * mapped 192 KB too low still matches (same keys, same fixed values) but the bytes really referenced differ.  Every phase-2 block is decoded with the
+ * real decoder against the previous block (its declared history). */
+static void long_stream_renorm_scenario(void)
+{
+    enum { BIG = 4 << 20, BS = 256 << 10, TBL = 64 << 10, RECS = 2048 };
+    LZ4_stream_t* fs = LZ4_createStream(); u8* big[2]; u8* blk[2]; u8* dst = xalloc((size_t)LZ4_compressBound(BIG)); u8* out = xalloc(BS);
+    static u8 keys[RECS][8], fixedv[RECS][24]; unsigned long long fed = 0; int b, i, k, turn = 0; rec_t r;
+    for (i = 0; i < RECS; i++) { for (k = 0; k < 8; k++) keys[i][k] = (u8)rnd(); for (k = 0; k < 24; k++) fixedv[i][k] = (u8)rnd(); }
+    for (b = 0; b < 2; b++) { big[b] = xalloc(BIG); for (i = 0; i < BIG; i++) big[b][i] = (u8)("abcdefgh"[(i + b) & 7]); blk[b] = xalloc(BS); }
+    while (fed + BIG < 0x80000000ULL - (3u << 20)) { int c = LZ4_compress_fast_continue(fs, (const char*)big[turn], (char*)dst, BIG, LZ4_compressBound(BIG), 1); n_calls++; if (c <= 0) break; fed += BIG; turn ^= 1; }
+    for (b = 0; b < 28; b++) {
+        u8* cur = blk[b & 1]; const u8* prev = blk[(b & 1) ^ 1]; int c, d;
+        for (i = 0; i < RECS; i++) { int q = (i + b) % RECS; memcpy(cur + 32 * i, keys[q], 8); memcpy(cur + 32 * i + 8, fixedv[q], 24); }   /* scrolled by one record per block: the previous block's copy is < 64 KB away */
+        for (i = TBL; i < BS - TBL; i++) cur[i] = (u8)("ACGT"[rnd() & 3]);
+        for (i = 0; i < RECS; i++) { memcpy(cur + (BS - TBL) + 32 * i, keys[(i + b) % RECS], 8); for (k = 0; k < 24; k++) cur[(BS - TBL) + 32 * i + 8 + k] = (u8)rnd(); }
+        rec_begin(&r, OP_STREAMBLOCK); cur_set(&r);
+        c = LZ4_compress_fast_continue(fs, (const char*)cur, (char*)dst, BS, LZ4_compressBound(BS), 1); n_calls++;
+        if (fed < 0x80000000ULL && fed + BS >= 0x80000000ULL) n_renorm++;
+        fed += BS;
+        if (c <= 0) { c_fail(&r, "continue_failed_at_bound"); break; }
+        d = b == 0 ? LZ4_decompress_safe_usingDict((const char*)dst, (char*)out, c, BS, (const char*)big[turn ^ 1], BIG)
+                   : LZ4_decompress_safe_usingDict((const char*)dst, (char*)out, c, BS, (const char*)prev, BS);
+        n_blocks++;
+        if (d != BS || memcmp(out, cur, BS) != 0) { c_fail(&r, "block_does_not_decode_against_history"); break; }
+        cur_clear();
+    }
+    LZ4_freeStream(fs); free(big[0]); free(big[1]); free(blk[0]); free(blk[1]); free(dst); free(out);
+}
+
 static void ring_restart_scenario(int family)
 {
     static u8 keys[64][8]; static int keysInit = 0; size_t rec = 12, bs, ring, s0, pos, k; int nblocks, i; u8* ringbuf; u8* dst;
@@ -266,13 +298,10 @@ int main(int argc, char** argv)
     nh = thorough ? 4000 : 300;
     for (i = 0; i < nh; i++) run_history(i % 2, 20 + (int)rndn(40), mode, dictbuf);
     if (!strcmp(mode, "c11")) for (i = 0; i < (thorough ? 3000 : 200); i++) ring_restart_scenario(i % 4 == 3);
-    if (thorough && !strcmp(mode, "c11")) {
-        /* beyond the index renormalisation point: place the stream's index next to 2^31 through the public view and keep going */
-        for (i = 0; i < 40; i++) { LZ4_stream_t* fs = LZ4_createStream(); (void)fs; LZ4_freeStream(fs); }
-    }
+    if (!strcmp(mode, "c11")) { int reps = thorough ? 3 : 1; while (reps--) long_stream_renorm_scenario(); }
     harness_done();
     stat_u("calls", n_calls); stat_u("blocks_checked", n_blocks); stat_u("limited_output_failures", n_fail_ret0); stat_u("saveDict", n_saves); stat_u("loadDict", n_loads); stat_u("attach", n_attach);
-    stat_u("resets", n_resets); stat_u("fastReset_oneshots", n_oneshots); stat_u("continue_destSize", n_destsize); stat_u("ring_wraps", n_wraps); stat_u("records", g_nrecords);
+    stat_u("resets", n_resets); stat_u("fastReset_oneshots", n_oneshots); stat_u("continue_destSize", n_destsize); stat_u("ring_wraps", n_wraps); stat_u("streams_beyond_2GiB", n_renorm); stat_u("records", g_nrecords);
     stat_u("cfails", (u64)g_cfails);
     free(dictbuf); free(g_hist); free(g_ring);
     return g_cfails ? 1 : 0;
